@@ -31,7 +31,7 @@ def run(ctx):
     cov = {"evaluations": int(ev), "distinct_nontrivial": int(c.get("distinct_nontrivial", 0)),
            "rule": "paths: every path of <= %d components over {a b . .. a.b .a a. a.b.c}, every separator choice in {/ \\}, optional leading/trailing "
                    "separator: simplifyPath idempotent and lexically equivalent (reference: absolute flag + component list), directory+base recompose, stem/"
-                   "extension rules; getRelativePath: all pairs of paths of <= 3 components over {a b . ..}, both relative or both absolute, for which a lexical "
+                   "extension rules; getRelativePath: all pairs of paths of <= 3 components over {a b . .. ab}, both relative or both absolute, for which a lexical "
                    "answer exists; file histories: every sequence of <= %d operations over 24 operations (5 open modes, write, seek, readAll, size, close, copy/"
                    "rename with and without failIfExists incl. missing and directory sources, unlink) on a scratch directory against a model of names -> file "
                    "objects + handle position, directory listing compared after every step and unchanged after failed steps; Directory::create for every "
